@@ -310,6 +310,21 @@ class ReachingDefsAnalysis:
 _DefCtx: TypeAlias = dict[NamedId, int]
 """visitor context: mapping from variable name to definition index"""
 
+def _always_returns(block: StmtBlock) -> bool:
+    """Does control never run off the end of *block*?"""
+    if not block.stmts:
+        return False
+    match block.stmts[-1]:
+        case ReturnStmt():
+            return True
+        case IfStmt() as s:
+            return _always_returns(s.ift) and _always_returns(s.iff)
+        case ContextStmt() as s:
+            return _always_returns(s.body)
+        case _:
+            return False
+
+
 class _ReachingDefs(DefaultVisitor):
     """Visitor for reaching definitions analysis."""
 
@@ -424,6 +439,13 @@ class _ReachingDefs(DefaultVisitor):
         # visit both true and false branches
         ift_out = self._visit_block(stmt.ift, ctx)
         iff_out = self._visit_block(stmt.iff, ctx)
+        # a branch that always returns does not reach the merge point: what
+        # follows the statement sees the other branch's definitions alone
+        ift_ends = _always_returns(stmt.ift)
+        iff_ends = _always_returns(stmt.iff)
+        if ift_ends != iff_ends:
+            self.phis[stmt] = {}
+            return iff_out if ift_ends else ift_out
         # introduce phi nodes for:
         # (i) redefinitions in the branches
         # (ii) introductions in both branches
